@@ -133,6 +133,9 @@ func (p *Path) Decode(format string, v string) bool {
 		re = strings.ReplaceAll(re, string(ch), "\\"+string(ch))
 	}
 
+	// the whole file name must match, not a part of it
+	re = "^" + re + "$"
+
 	re = strings.ReplaceAll(re, "%path", "(.*?)")
 	re = strings.ReplaceAll(re, "%Y", "([0-9]{4})")
 	re = strings.ReplaceAll(re, "%m", "([0-9]{2})")
